@@ -349,6 +349,64 @@ static void prog_arena(int nworkers) {
   vf_logf("],\"got\":%d}", got); vf_log_line_end();
 }
 
+/* ---- program "adopt" (C15, adoption): threads leave partly used small/medium pages behind, some in an exclusive arena (bound heap),
+   some in ordinary memory (default heap).  The main thread then needs fresh segments many times -- every such request visits the
+   abandoned segments again -- first with its unbound default heap, then with a heap bound to the arena, and allocates in the
+   size classes that were left behind: unbound allocations must stay outside the exclusive arena, bound ones inside. */
+static const size_t adopt_sizes[] = { 64, 64, 1000, 1000, 20000, 100000 };
+static void* adopt_worker(void* arg) {
+  role_t* r = (role_t*)arg;
+  cur_t = r->t; cur_theap = r->heapid; vf_cur_thread = r->t;
+  vf_logf("{\"e\":\"tstart\",\"t\":%d,\"h\":%d}", r->t, r->heapid); vf_log_line_end();
+  vf_point();
+  int hi = r->collect ? heap_new_in_arena_op(arena_idx) : -1;     /* collect: this worker uses a heap bound to the exclusive arena */
+  int own[48], nown = 0;
+  if (!r->collect || hi >= 0) {
+    int n = 12 + (int)vf_randn(30);
+    for (int i = 0; i < n; i++) {
+      size_t sz = adopt_sizes[vf_randn(sizeof(adopt_sizes) / sizeof(size_t))];
+      int ns_ = r->collect ? op_alloc_ex(A_heap_malloc, sz, 0, 0, hi, 0) : op_alloc_ex(A_malloc, sz, 0, 0, 0, 0);
+      if (ns_ >= 0 && nown < 48) own[nown++] = ns_;
+      if (vf_randn(4) == 0) vf_point();
+    }
+    for (int i = 0; i < nown; i++) if (vf_randn(3) == 0 && slots[own[i]].p) op_free_slot(own[i], FR_free);   /* holes: pages with free blocks */
+    if (hi >= 0) { hps[hi].alive = 0; hps[hi].descid = 0; }     /* released by mi_thread_done; the arena stays private */
+  }
+  vf_logf("{\"e\":\"tdone\",\"t\":%d}", r->t); vf_log_line_end();
+  vf_in_call = 1; mi_thread_done(); vf_in_call = 0;
+  return NULL;
+}
+static void adopt_phase(int bound, int hb) {
+  /* fresh segments: large (12 MiB) pages, two per segment; every fresh segment request first tries to reclaim abandoned segments */
+  int big[12], nbig = 0;
+  int nfresh = 8 + (int)vf_randn(5);
+  for (int i = 0; i < nfresh; i++) {
+    int s = bound ? op_alloc_ex(A_heap_malloc, (12u << 20) + vf_randn(4096), 0, 0, hb, 0) : op_alloc_ex(A_malloc, (12u << 20) + vf_randn(4096), 0, 0, 0, 0);
+    if (s >= 0 && nbig < 12) big[nbig++] = s;
+    if (nbig > 4 && vf_randn(2) == 0) { int j = (int)vf_randn((uint64_t)nbig); int s2 = big[j]; big[j] = big[--nbig]; if (slots[s2].p) op_free_slot(s2, FR_free); }
+  }
+  for (size_t k = 0; k < sizeof(adopt_sizes) / sizeof(size_t); k++) {
+    int n = adopt_sizes[k] <= 1000 ? 40 : 6;
+    for (int i = 0; i < n; i++) { if (bound) op_alloc_ex(A_heap_malloc, adopt_sizes[k], 0, 0, hb, 0); else op_alloc_ex(A_malloc, adopt_sizes[k], 0, 0, 0, 0); }
+  }
+  op_checkall();
+  while (nbig > 0) { int s2 = big[--nbig]; if (slots[s2].p) op_free_slot(s2, FR_free); }
+}
+static void prog_adopt(int nworkers) {
+  max_fill = 4096;
+  arena_idx = arena_setup((size_t)12 * (32u << 20) + 12345, 4096 * 3, 1);
+  if (arena_idx < 0) return;
+  int hb = heap_new_in_arena_op(arena_idx);
+  for (int k = 0; k < nworkers; k++) { role_t* r = &roles[k + 1]; memset(r, 0, sizeof(*r)); r->t = k + 1; r->heapid = next_heap_id++; r->collect = (k % 2 == 0); vf_spawn(adopt_worker, r); }
+  vf_sched_go();
+  vf_wait_all();
+  op_checkall();
+  int order = (int)vf_randn(2);
+  for (int ph = 0; ph < 2; ph++) { int bound = (ph ^ order); if (!bound || hb >= 0) adopt_phase(bound, hb); }
+  for (int s = 0; s < MAXSLOTS; s++) if (slots[s].p) op_free_slot(s, FR_free);
+  do_collect(1);
+}
+
 /* ---- program "abvisit" (C12, second half): threads leave blocks behind; mi_abandoned_visit_blocks must report exactly them,
    a visitor returning false stops the walk, and a later walk is complete again (needs MIMALLOC_VISIT_ABANDONED=1) */
 static void visit_abandoned(int stopat) {
@@ -425,6 +483,7 @@ static int run_one(const char* out, const char* prog, uint64_t seed, int argc, c
   else if (!strcmp(prog, "page-collect")) prog_page(nremote, 12, 2, 1);
   else if (!strcmp(prog, "pc")) prog_pc(1 + (int)vf_randn(2), 2400, blk_lo, blk_hi);
   else if (!strcmp(prog, "abvisit")) prog_abvisit(2 + (int)vf_randn(3));
+  else if (!strcmp(prog, "adopt")) prog_adopt(2 + (int)vf_randn(3));
   else if (!strcmp(prog, "arena")) prog_arena(2 + (int)vf_randn(2));
   else if (!strcmp(prog, "exit-aligned")) { exit_aligned = 1; prog_exit(2 + (int)vf_randn(2), 14 + (int)vf_randn(10), 100, 400); }
   else if (!strcmp(prog, "exit")) prog_exit(2 + (int)vf_randn(2), 14 + (int)vf_randn(10), blk_lo, blk_hi);
